@@ -184,7 +184,10 @@ func New(c Case, noMixed bool) (*State, bool, error) {
 		if !c.Init.IsCont() {
 			return nil, false, nil
 		}
-		from := model.FromTreeLists(c.Init)
+		from, ferr := model.FromTreeSep(c.Init, s.Sep, true)
+		if ferr != nil {
+			return nil, false, nil // two keys of one object define the same setting: C06's domain
+		}
 		s.LooseEmpty = model.EmptyListMeets(model.Default, m, from)
 		model.MergeCont(model.Default, nil, m, from)
 		if noMixed && m.Mixed() {
@@ -304,12 +307,15 @@ func (s *State) sides(h Handle, segs []model.Seg, old *model.Node, info *Info) {
 // treeModel is the model of NewFrom(t): a new config with t merged in. The
 // second result reports that t is an empty list at its top level (whether the
 // config is a list then is not stated).
-func treeModel(t *gen.Tree) (*model.Node, bool) {
+func treeModel(t *gen.Tree, sep string) (*model.Node, bool, error) {
 	m := model.NewCont()
-	from := model.FromTreeLists(t)
+	from, err := model.FromTreeSep(t, sep, true)
+	if err != nil {
+		return nil, false, err
+	}
 	loose := model.EmptyListMeets(model.Default, m, from)
 	model.MergeCont(model.Default, nil, m, from)
-	return m, loose
+	return m, loose, nil
 }
 
 // emptyListAsConfig: the representations chosen for the tree hand an empty
@@ -438,7 +444,11 @@ func (s *State) Apply(op Op) (Info, error) {
 			info.Skipped = "setchild without a tree"
 			return info, nil
 		}
-		m, loose := treeModel(op.Val)
+		m, loose, terr := treeModel(op.Val, s.Sep)
+		if terr != nil {
+			info.Skipped = "tree with conflicting keys"
+			return info, nil
+		}
 		if s.NoMixed {
 			cp := h.M.Copy()
 			if _, err := cp.SetPath(segs, m.Copy()); err == nil && cp.Mixed() {
@@ -591,7 +601,12 @@ func (s *State) Apply(op Op) (Info, error) {
 				return info, fmt.Errorf("%s: NewFrom(tree) failed: %v", what, err)
 			}
 			var loose bool
-			from, loose = treeModel(op.Val)
+			var terr error
+			from, loose, terr = treeModel(op.Val, s.Sep)
+			if terr != nil {
+				info.Skipped = "tree with conflicting keys"
+				return info, nil
+			}
 			if loose {
 				s.LooseEmpty = true
 			}
@@ -612,10 +627,17 @@ func (s *State) Apply(op Op) (Info, error) {
 			}); err != nil {
 				return info, fmt.Errorf("%s: building the Go representation of the tree failed: %v", what, err)
 			}
-			from, src = model.FromTreeLists(op.Val), v
-			if emptyListAsConfig(op.Val) {
+			var terr error
+			from, terr = model.FromTreeSep(op.Val, s.Sep, true)
+			src = v
+			if terr == nil && emptyListAsConfig(op.Val) {
 				// such a config is an empty config and no list: no list marks for this tree at all
-				from, s.LooseEmpty = model.FromTree(op.Val), true
+				from, terr = model.FromTreeSep(op.Val, s.Sep, false)
+				s.LooseEmpty = true
+			}
+			if terr != nil {
+				info.Skipped = "tree with conflicting keys"
+				return info, nil
 			}
 			info.Source = "mixed Go representations"
 		default:
@@ -623,7 +645,12 @@ func (s *State) Apply(op Op) (Info, error) {
 				info.Skipped = "merge without a tree"
 				return info, nil
 			}
-			from, src = model.FromTreeLists(op.Val), op.Val.Go()
+			var terr error
+			if from, terr = model.FromTreeSep(op.Val, s.Sep, true); terr != nil {
+				info.Skipped = "tree with conflicting keys"
+				return info, nil
+			}
+			src = op.Val.Go()
 			info.Source = "generic data"
 		}
 		info.SrcList, info.SrcDict = len(from.A) > 0, len(from.D) > 0
@@ -884,6 +911,10 @@ type GenCfg struct {
 	// that lists lose their last remaining element; the list's address joins the addresses later
 	// operations and reads are steered to (refill, padding write, Child, removal of the empty list, merges)
 	Drain int
+	// Dotted (out of 10): chance that, with a path separator, a tree that is merged, attached with SetChild or
+	// given to NewFrom (the initial tree, fresh *Config sources) spells part of its structure in dotted keys
+	// (FoldKeys: "l.02.x": 1 for l: [nil, nil, {x: 1}]), list indices in every integer syntax (Respell)
+	Dotted int
 }
 
 // listOf splits an address that denotes a list element into the address of the
@@ -1164,11 +1195,20 @@ func Gen(t *rapid.T, g *GenCfg) Case {
 				op.Name, op.Idx = sp.Name, sp.Idx
 			}
 		}
+		dotted := g.Dotted > 0 && c.PathSep && (kind == SetChild || kind == Merge) && rapid.IntRange(0, 9).Draw(t, "dotted") < g.Dotted
 		switch kind {
 		case Set:
 			op.Val = gen.GenTree(t, g.Prims, 0)
 		case SetChild:
 			op.Val = genTop(t, g.Trees, g.Trees.Depth-1)
+			if dotted {
+				// deep enough to have structure that can be spelled in the keys
+				if len(g.ListNames) > 0 && rapid.Bool().Draw(t, "childlisty") {
+					op.Val = nestUnder(rapid.SampledFrom(g.ListNames).Draw(t, "childlistname"), gen.GenList(t, g.Trees, 1))
+				} else {
+					op.Val = gen.GenObj(t, g.Trees, g.Trees.Depth)
+				}
+			}
 		case Merge:
 			op.Val = genTop(t, g.Trees, g.Trees.Depth)
 			if len(g.ListNames) > 0 && rapid.IntRange(0, 9).Draw(t, "listy") < 5 {
@@ -1228,6 +1268,9 @@ func Gen(t *rapid.T, g *GenCfg) Case {
 		case Reattach:
 			op.Src = rapid.IntRange(0, 5).Draw(t, "src")
 		}
+		if dotted && op.Val != nil && op.Val.IsCont() {
+			op.Val = FoldKeys(t, op.Val, g.Respell, "")
+		}
 		respellKeys(t, g, op.Val)
 		c.Ops = append(c.Ops, op)
 		if kind == Remove && g.Drain > 0 {
@@ -1250,6 +1293,9 @@ func Gen(t *rapid.T, g *GenCfg) Case {
 				}
 			}
 		}
+	}
+	if g.Dotted > 0 && c.PathSep && c.Init != nil && rapid.IntRange(0, 9).Draw(t, "initdotted") < g.Dotted {
+		c.Init = FoldKeys(t, c.Init, g.Respell, "init")
 	}
 	respellKeys(t, g, c.Init)
 	all := append(append([]Addr{}, used...), usedVia...)
@@ -1274,6 +1320,12 @@ func Gen(t *rapid.T, g *GenCfg) Case {
 			}
 			for i := range c.Reads {
 				c.Reads[i].Name = strings.ReplaceAll(c.Reads[i].Name, ".", sep)
+			}
+			if g.Dotted > 0 {
+				replaceSepInKeys(c.Init, sep)
+				for i := range c.Ops {
+					replaceSepInKeys(c.Ops[i].Val, sep)
+				}
 			}
 		}
 	}
